@@ -709,10 +709,33 @@ def run(ck, prog, ctx):
         steps17 = [("record the new cluster", _calls17("::new_cluster")), ("store the distances to the new cluster", (lambda t_: re.search(r"DistanceMatrix::(insert|extend|insert_many|extend_from)\w*$", t_.callee.res or "") is not None)), ("drop the distances of the merged pair", _calls17("DistanceMatrix::retain")),
                    ("store the merged set", lambda t_: t_.callee.method == "push" and t_.args and "sets" in field_names_of(pvb.of_operand(prog.body(LINK + nm), t_.args[0])))]
         # (a step is demanded when the helper / field it is phrased over exists on this tree: another bookkeeping may not have it)
-        exists17 = {"record the new cluster": prog.body(LINK + "new_cluster") is not None, "store the distances to the new cluster": prog.body("stats::linkage::DistanceMatrix::insert") is not None,
+        if nm == "cluster_set_unions" and prog.one(r"Combinations::<.*>::set_to_last$|Combinations::set_to_last$") is not None:
+            steps17.append(("restrict the combinations to the pairs with the new set", lambda t_: (t_.callee.res or "").endswith("::set_to_last")))
+        exists17 = {"restrict the combinations to the pairs with the new set": True, "record the new cluster": prog.body(LINK + "new_cluster") is not None, "store the distances to the new cluster": prog.body("stats::linkage::DistanceMatrix::insert") is not None,
                     "drop the distances of the merged pair": prog.body("stats::linkage::DistanceMatrix::retain") is not None,
                     "store the merged set": any(f_.get("name") == "sets" for v_ in prog.adts.get("stats::linkage::Linkage", {}).get("variants", []) for f_ in v_.get("fields", []))}
         _crs17(ck, "BOOK", prog, hb, [(l_, p_) for l_, p_ in steps17 if exists17[l_]])
+    # ---- average linkage: the update function that `average` hands to the merge loop is the MEAN of its two arguments: one addition of the two
+    # values and one division by the constant 2 (and no other arithmetic)
+    avb = prog.body(LINK + "average")
+    if avb is not None:
+        pva = Prov(prog, inline=False)
+        fns_ = set()
+        for bi_, t_ in avb.calls():
+            if (t_.callee.res or "").endswith("::arithmetic_cluster"):
+                for a_ in t_.args[1:]:
+                    fns_ |= {x_[1] for x_ in pva.of_operand(avb, a_) if x_[0] == "fn" and x_[1] in prog.bodies}
+                    if a_.kind == "const" and (a_.const or {}).get("fn") in prog.bodies:
+                        fns_.add(a_.const["fn"])
+                    if a_.kind == "const" and (a_.const or {}).get("res") in prog.bodies:
+                        fns_.add(a_.const["res"])
+        for fid_ in sorted(fns_):
+            mb_ = prog.bodies[fid_]
+            bins_ = [st_ for _, st_ in mb_.stmts() if st_.k == "assign" and st_.rv["k"] == "bin" and st_.rv["op"].replace("WithOverflow", "") in ("Add", "Sub", "Mul", "Div", "Rem")]
+            ops_ = sorted([st_.rv["op"].replace("WithOverflow", "") for st_ in bins_] + [{"add": "Add", "sub": "Sub", "mul": "Mul", "div": "Div", "rem": "Rem"}[t_.callee.method] for _, t_ in mb_.calls() if (t_.callee.trait or "").startswith("std::ops::") and t_.callee.method in ("add", "sub", "mul", "div", "rem")])
+            div2 = [st_ for st_ in bins_ if st_.rv["op"] == "Div" and st_.rv["r"].kind == "const" and st_.rv["r"].float_value() == 2.0]
+            ok_ = ops_ == ["Add", "Div"] and len(div2) == 1
+            ck.ob("BOOK", "average/update-is-the-mean/%s" % mb_.short, ok_, "the update function of average linkage (%s) computes %s" % (mb_.short, "(v1 + v2) / 2" if ok_ else "with the operations %s%s (expected one addition and one division by 2.0)" % (ops_, "" if div2 or "Div" not in ops_ else ", the divisor is not the constant 2.0")), where=mb_.where())
     # ---- union linkage: the set that is stored for the new cluster is put together from BOTH merged sets (each taken out of its slot)
     ub_ = prog.body(LINK + "cluster_set_unions")
     if ub_ is not None:
